@@ -38,6 +38,7 @@ KEYS = {
   'tt':    {'out': (['C14'], [])},
   'order': {'res': (['C19'], []), 'scored': (['C19'], []), 'visit': (['C19'], [])},
   'time':  {'budget': (['C08'], [])},
+  'gotime': {'budget': (['C08', 'C07'], [])},
   'go':    {'res': (['C07'], []), 'sp': (['C07'], []), 'msgs': (['C07'], [])},
   'gof':   {'res': (['C07'], []), 'sp': (['C07'], []), 'msgs': (['C07'], [])},
   'prep':  {'tokens': (['C07'], [])},
@@ -59,9 +60,10 @@ ASSERT = {
   'eval': {'p.mirror': ['C15'], 'p.bound': ['C15'], 'p.mirrorpub': ['C15', 'C16']},
   'evalc': {'p.transparent': ['C16']},
   'tt':   {'p.sound': ['C14'], 'p.absent': ['C14'], 'p.aftersave': ['C14']},
-  'order': {'p.perm': ['C19'], 'p.sorted': ['C19']},
+  'order': {'p.perm': ['C19'], 'p.sorted': ['C19'], 'p.strscore': ['C03', 'C19']},
   'time': {'p.ltclock': ['C08', 'C05'], 'p.ltmovetime': ['C08', 'C05'], 'p.indep': ['C08']},
   'go':   {'p.total': ['C07']},
+  'gotime': {'p.ltclock': ['C08'], 'p.ltmovetime': ['C08']},
   'gof':  {'p.total': ['C07'], 'p.faithful': ['C07']},
   'hashdiff': {'p.distinct': ['C09']},
   'ecache': {'p.keyexact': ['C16']},
@@ -74,7 +76,7 @@ ASSERT = {
   'facts': {'p.terminated': ['C05'], 'p.depthok': ['C05'], 'p.stopnow': ['C05'], 'p.nopanic': ['C04', 'C05'], 'p.nextnode': ['C05']},
 }
 # operations whose answers are compared even outside the legal-position domain
-ALWAYS = {'fen', 'att', 'magic', 'tt', 'time', 'go', 'gof', 'prep', 'search', 'facts', 'hashdiff', 'ecache', 'dialog', 'timed', 'conc', 'deep', 'deepseq', 'procuci'}
+ALWAYS = {'fen', 'att', 'magic', 'tt', 'time', 'go', 'gof', 'gotime', 'prep', 'search', 'facts', 'hashdiff', 'ecache', 'dialog', 'timed', 'conc', 'deep', 'deepseq', 'procuci'}
 
 
 def sh(cmd, cwd=None, env=None, timeout=None, stdin=None):
